@@ -25,7 +25,7 @@ PROPERTY THEOREMS: C01_e2e_actual, C01_e2e_roundtrip_partial, C01_e2e_reencode_p
 C01_e2e_dec_output_normal, C01_e2e_reencode, C01_e2e_reencode_normal, C01_e2e_full_fails_arr, C01_e2e_full_fails_zero,
 C01_e2e_full_fails_fffd, C01_e2e_reencode_fails_undersized, C01_e2e_reencode_fails_pieces, C01_e2e_reencode_fails_f64dev,
 C01_e2e_reencode_boolarr_roundtrip, C01_e2e_value_independent_of_byte_order, C01_e2e_roundtrip_strict_partial,
-C01_e2e_full_fails_emptystr, C01_e2e_norm_bool_witness
+C01_e2e_full_fails_emptystr, C01_e2e_norm_bool_witness, C01_e2e_actual_exact, C01_e2e_roundtrip_exact_partial
 
 Findings of the pinned tree (open, see known_findings.jsonl): KF-C01-arr (F03), KF-C01-zero (F04), KF-C01-fffd (F02): the
 full statement `C01_e2e_roundtrip_full` is false on them (`C01_e2e_full_fails_*`); `C01_e2e_roundtrip_partial` excludes
@@ -84,6 +84,28 @@ theorem C01_e2e_actual (c : Cfg) (o : Fit.DecApi.Opts) (files : List FileIn) (ke
   rw [filesOf_snd c files kepts hlen] at this
   exact this
 
+/-- **END TO END, DETERMINISTIC (audit C01-5: the theorem pins the order).** Under the hypotheses of `C01_e2e_actual`:
+decoding the bytes returns EXACTLY `actualSeq` of what validation retained, file by file — `seqBack reread`, which threads
+the encoder's two timestamps (`Wire.compressTs`: reference and last timestamp, fresh per file) and puts the timestamp of a
+message in front if and only if the encoder moved it into a compressed-timestamp header; never when the header option is
+normal. `C01_e2e_actual` ("as it is or with its first timestamp in front") is the weaker form. Proved by carrying the
+encoder's decision through the wire-level round trip (`encodeMsgs_roundtripF_exact`, `good_items_exact`). -/
+theorem C01_e2e_actual_exact (c : Cfg) (o : Fit.DecApi.Opts) (files : List FileIn) (kepts : List (List Message)) (bytes : List Nat)
+    (henc : encodeChain c files 0 = (kepts, bytes, none)) (hne : files ≠ [])
+    (hc : CfgOK c files) (ho : PlainOpts o) (hdom : ∀ kept ∈ kepts, inDomain o.fac kept = true)
+    (hsmall : bytes.length < 4294967296) :
+    decodeValues o bytes = (kepts.map (actualSeq o.fac c.w), none) := by
+  obtain ⟨fits, h1, h2, _⟩ := e2e_chain c o files kepts bytes henc hne hc ho hdom hsmall
+  obtain ⟨hlen, _, _⟩ := encodeChain_ok c files 0 kepts bytes henc
+  simp only [decodeValues, h1, Prod.mk.injEq, and_true]
+  have : ∀ (fl : List (Wire.Hdr × List Message)) (ft : List Fit.DecApi.Fit), AllMatch (FitMatch o c.w) fl ft →
+      ft.map (fun f => f.msgs.map proj) = (fl.map (·.2)).map (actualSeq o.fac c.w) := by
+    intro fl ft hm
+    induction hm with
+    | nil => rfl
+    | cons hab _ ih => simp only [List.map_cons, ih, hab.2.2.2.2]
+  rw [this _ _ h2, filesOf_snd c files kepts hlen]
+
 /-- no field / developer field of the retained messages is in one of the three finding classes -/
 def noKF (fac : Fit.DecApi.Factory) (kept : List Message) : Bool :=
   !kfZero fac kept && !kfArr fac kept && !kfFFFD fac kept
@@ -125,6 +147,27 @@ theorem C01_e2e_roundtrip_partial (c : Cfg) (o : Fit.DecApi.Opts) (files : List 
     exact hkf _ hk⟩)
   rw [filesOf_snd c files kepts hlen] at this
   exact this
+
+/-- **… and outside the three finding classes it is exactly the normal form**: `normalSeq` (deterministic), not merely one of
+the allowed forms. This is the equation the driver evaluates on the implementation's answer of every `rte2e` line
+(`fail:timestamp-placement`). -/
+theorem C01_e2e_roundtrip_exact_partial (c : Cfg) (o : Fit.DecApi.Opts) (files : List FileIn) (kepts : List (List Message))
+    (bytes : List Nat) (henc : encodeChain c files 0 = (kepts, bytes, none)) (hne : files ≠ [])
+    (hc : CfgOK c files) (ho : PlainOpts o) (hdom : ∀ kept ∈ kepts, inDomain o.fac kept = true)
+    (hsmall : bytes.length < 4294967296) (hkf : ∀ kept ∈ kepts, noKF o.fac kept = true) :
+    decodeValues o bytes = (kepts.map (normalSeq o.fac c.w), none) := by
+  rw [C01_e2e_actual_exact c o files kepts bytes henc hne hc ho hdom hsmall]
+  obtain ⟨_, _, _, h3⟩ := e2e_chain c o files kepts bytes henc hne hc ho hdom hsmall
+  obtain ⟨hlen, _, _⟩ := encodeChain_ok c files 0 kepts bytes henc
+  congr 1
+  apply List.map_congr_left
+  intro kept hk
+  have hk' : kept ∈ (filesOf c files kepts).map (·.2) := by rw [filesOf_snd c files kepts hlen]; exact hk
+  obtain ⟨file, hfile, rfl⟩ := List.mem_map.mp hk'
+  have hf := h3 file hfile
+  have hcl := hkf _ hk
+  simp only [noKF, Bool.and_eq_true, Bool.not_eq_true'] at hcl
+  exact seqBack_normal o.fac c.w file.2 {} hf.keptOK hf.dom hcl.1.1 hcl.1.2 hcl.2
 
 theorem seqMatches_literal (fac : Fit.DecApi.Factory) (arch : Nat) : ∀ (kept : List Message) (vst : Fit.Validator.State)
     (ns : List NMsg), seqNormal fac arch vst kept = true → seqMatches normalValue false fac arch vst kept ns = true →
@@ -632,6 +675,11 @@ example : (decodeValues exO (encodeChain exCfg exFiles 0).2.1) =
        ⟨20, [⟨253, 0x86, .uint32 1000000000⟩, ⟨3, 2, .uint8 70⟩], [⟨1, 0, .uint16 500⟩]⟩,
        ⟨20, [⟨253, 0x86, .uint32 1000000005⟩, ⟨200, 0x84, .sliceUint16 [1, 2]⟩], [⟨1, 0, .uint16 7⟩]⟩],
       [⟨65280, [⟨1, 7, .sliceString [[0x61], [0x62]]⟩, ⟨2, 0x89, .float64 0x3FF8000000000000⟩], []⟩]], none) := by
+  decide +kernel
+
+/-- … and it is exactly `normalSeq` (the deterministic form of `C01_e2e_roundtrip_exact_partial`): with header option
+"compressed timestamp" the second record's timestamp is in front, the first one's (written in full) where it was -/
+example : decodeValues exO (encodeChain exCfg exFiles 0).2.1 = ((encodeChain exCfg exFiles 0).1.map (normalSeq exFac exCfg.w), none) := by
   decide +kernel
 
 /-- re-encoding, evaluated: the messages the example decodes to (turned back into encoder input: same numbers, base types,
